@@ -25,6 +25,7 @@ type Obligation struct {
 	Path    *cmdList
 	Goal    string
 	ExpectSat bool // vacuity checks
+	Before  *cmdList // vacuity checks: the path before the assumption under test (an infeasible path is not a vacuity failure)
 	PathID  int
 	// results
 	Result string // unsat | sat | unknown | timeout | error
@@ -85,6 +86,7 @@ type Ctx struct {
 	usedAxioms  map[string]bool
 	warned      map[string]bool
 	needStrSub  bool
+	defs        map[string]string
 	paramTerms  []Value
 	smtCache    []string
 	usesBits    bool
@@ -98,7 +100,7 @@ func newCtx(P *Program, SS *SpecSet, fn *ssa.Function, spec *FuncSpec, key strin
 	return &Ctx{P: P, SS: SS, Fn: fn, Spec: spec, Key: key,
 		sortSeen: map[string]bool{}, declSeen: map[string]bool{}, oblCount: map[string]int{},
 		Assumptions: map[string]bool{}, Unmodelled: map[string]bool{}, tags: map[string]int{}, strlits: map[string]string{},
-		structNames: map[string]string{}, maxPaths: 4000, usedAxioms: map[string]bool{}, warned: map[string]bool{}, rangeCells: map[*ssa.Range]*Cell{}, compSorts: map[string]string{}}
+		structNames: map[string]string{}, maxPaths: 4000, usedAxioms: map[string]bool{}, warned: map[string]bool{}, rangeCells: map[*ssa.Range]*Cell{}, compSorts: map[string]string{}, defs: map[string]string{}}
 }
 
 func (c *Ctx) fresh(prefix string) string {
